@@ -53,6 +53,30 @@ Definition pre_block (txs : list rawtx) (height : Z) (s : list pd) : res (list p
       Ok (fold_left (fun s e => match rt_uri e with None => s | Some u => set_height u height s end) entries s)
   end.
 
+(* ------------------------------------------------------------------ PrepareProposal *)
+(* app/abci_proposal.go PrepareProposal.  Sizes are what CometBFT charges an entry against
+   MaxTxBytes (types.ComputeProtoSizeForTxs); CometBFT refuses a proposal whose entries add up
+   to more (state/execution.go CreateProposalBlock: Txs.Validate) and the proposer then proposes
+   nothing.  [sel m] = sizes of the entries the SDK's default handler returns for the budget m
+   (oracle; its contract: their sum is <= m).  [split] = size of the METADATA splitter,
+   [entries] = sizes of the marshalled uris of the verified items, in store order.
+   [repaired] = notes/patches/C01-prepare-proposal-max-tx-bytes.patch: the section is built first,
+   within half of the budget, the default handler gets the rest. *)
+Definition zsumL (l : list Z) : Z := fold_right Z.add 0 l.
+Fixpoint take_fitting (budget used : Z) (entries : list Z) : list Z :=
+  match entries with
+  | [] => []
+  | e :: tl => if budget <? used + e then [] else e :: take_fitting budget (used + e) tl
+  end.
+Definition metadata_section (max split : Z) (entries : list Z) : list Z :=
+  match take_fitting (max / 2) split entries with
+  | [] => []                 (* no verified item, or not even one entry fits: no section *)
+  | l => split :: l
+  end.
+Definition prepare_proposal (repaired : bool) (sel : Z -> list Z) (max split : Z) (entries : list Z) : list Z :=
+  if repaired then let m := metadata_section max split entries in sel (max - zsumL m) ++ m
+  else sel max ++ (match entries with [] => [] | _ => split :: entries end).
+
 (* ------------------------------------------------------------------ DA end blocker *)
 (* the tally verdict as the code computes it (Da.code_verdict); outside the shapes a stored item
    can have (1 <= shards, parity and shards below 2^63) the model does not follow the code *)
